@@ -10,7 +10,8 @@ and outputs of every VhdlScope.complete_setup are compared with the Gallina mode
 Names.uniquify (model = code), and the live reserved-word / operator tables are regenerated
 (tables.py) and checked against Vhdl/TablesRef.v.
 
-design sources: regression corpus, NAMING generator, EXPRESSION generator, and (thorough tier)
+design sources: regression corpus (the witnesses of the defects fixed in /repo by 94f10ee, 66ecb7a, 60980b9, 825f8bb,
+3102177, e0166b5: they must now be legal or rejected), NAMING generator, EXPRESSION generator, and (thorough tier)
 all upstream reference designs = the false-alarm guard of the rules."""
 from __future__ import annotations
 import json
@@ -266,6 +267,15 @@ def entity_design(ent: R.Entity):
             stmts.append(("proc", c))
         elif isinstance(c, R.Instance):
             insts.append(c)
+        elif c[0] == "cassert":
+            # a concurrent assertion is a process sensitive to the signals of its condition (LRM 9.4)
+            cond = R._subst_expr(c[1], ren, sub)
+            sens = []
+            for x in R._names_in(cond):
+                if x not in sens:
+                    sens.append(x)
+            d.conc.append(("proc", "assert__%d" % len(d.conc), sens, [("assert", cond)]))
+            stmts.append(c)
         elif c[0] == "assign":
             d.conc.append(("assign", R._subst_target(c[1], ren, sub), R._subst_expr(c[2], ren, sub)))
             stmts.append(c)
@@ -474,6 +484,8 @@ def pp_conc(c):
         return ["%s: process(%s)" % (p.label, ", ".join(p.sens))] + \
                ["  variable %s : %s;" % (v.name, v.ty.kind + (v.ty.vk + str(v.ty.w) if v.ty.kind == "vec" else ""))
                 for v in p.vars] + ["begin"] + pp_stmts(p.body, 1) + ["end process;"]
+    if c[0] == "cassert":
+        return ["assert %s;" % pp_expr(c[1])]
     if c[0] == "assign":
         return ["%s <= %s;" % (pp_target(c[1]), pp_expr(c[2]))]
     if c[0] == "select":
@@ -1258,11 +1270,11 @@ class Reporter:
         self.ck = ck
         self.seen = {}
 
-    def report(self, key, what, replay):
+    def report(self, key, what, replay, no_input=False):
         k = json.dumps(key, sort_keys=True)
         self.seen[k] = self.seen.get(k, 0) + 1
         if self.seen[k] == 1:
-            self.ck.violation(key, what, replay)
+            self.ck.violation(key, what, replay, no_input=no_input)
 
 
 def design_replay(d, res, extra):
@@ -1387,12 +1399,16 @@ def uniquify_phase(ck, rep, compiled, live):
     for i in bad:
         d, res, sc = owners[i]
         ck.obligation(False)
-        # specification: the assigned names are pairwise distinct (case-insensitively) and avoid the used names
+        # specification: the assigned names are legal identifiers, pairwise distinct (case-insensitively) and avoid
+        # the used names; a difference that keeps the specification names the correspondence that no longer checks
         low = [x.lower() for x in sc["names"]]
-        spec_ok = len(set(low)) == len(low) and not (set(low) & set(sc["used"]))
+        spec_ok = (len(set(low)) == len(low) and not (set(low) & set(sc["used"]))
+                   and all(re.fullmatch(r"[A-Za-z](?:_?[A-Za-z0-9])*", x) for x in sc["names"]))
         rep.report({"rule": "uniquify_model", "spec_violated": not spec_ok},
-                   "complete_setup no longer agrees with Names.uniquify" + ("" if spec_ok else " and its result collides"),
-                   design_replay(d, res, {"scope": sc}))
+                   "complete_setup no longer agrees with Names.uniquify" +
+                   ("" if spec_ok else " and its result is not a list of distinct, free, legal identifiers"),
+                   design_replay(d, res, {"scope": sc, "broken": "correspondence Names.uniquify = VhdlScope.complete_setup"}),
+                   no_input=spec_ok)
 
 
 def run(ck: common.Check, replay=None):
